@@ -2,17 +2,15 @@
 pub open spec fn dotdot() -> Seq<char> { seq!['.', '.'] }
 pub open spec fn slash() -> Seq<char> { seq!['/'] }
 
-// a path that starts with '/' and has no ".." anywhere cannot leave the directory it is appended to
-pub proof fn lemma_inside_root(p: Seq<char>)
-    requires has_prefix(p, slash()), !has_sub(p, dotdot()),
-    ensures rel_inside(p),
+// a path that can be appended to the served directory without leaving it: it starts with '/' and none of its segments is ".."
+// (URL::is_path_inside_root; two dots inside a name, like a..b, are fine)
+pub open spec fn inside(p: Seq<char>) -> bool { has_prefix(p, slash()) && !has_dotdot_seg(p) }
+pub proof fn lemma_inside(p: Seq<char>)
+    ensures inside(p) == rel_inside(p), has_prefix(p, slash()) == (p.len() > 0 && p[0] == '/'),
 {
-    assert(p.subrange(0, 1) == slash());
-    assert(p[0] == p.subrange(0, 1)[0]);
-    if has_dotdot_seg(p) {
-        let i = choose|i: int| dotdot_at(p, i);
-        assert(p.subrange(i, i + 2) =~= dotdot());
-        assert(has_sub(p, dotdot()));
+    if p.len() > 0 {
+        assert(p.subrange(0, 1)[0] == p[0]);
+        if p[0] == '/' { assert(p.subrange(0, 1) =~= slash()); }
     }
 }
 
@@ -89,8 +87,7 @@ pub open spec fn request_url(uri: Seq<char>) -> Seq<char> { seq!['h', 't', 't', 
 
 pub open spec fn static_match(method: Seq<char>, uri: Seq<char>) -> bool {
     let p = url_path_spec(request_url(uri));
-    method_serves(method) && uri != slash() && p.is_some() && has_prefix(p.unwrap(), slash()) && !has_sub(p.unwrap(), dotdot())
-        && lookup_selects(p.unwrap())
+    method_serves(method) && uri != slash() && p.is_some() && inside(p.unwrap()) && lookup_selects(p.unwrap())
 }
 
 // C09: whether a target is served does not depend on which of GET / HEAD / OPTIONS asks
@@ -104,7 +101,7 @@ pub proof fn lemma_match_is_method_independent(m1: Seq<char>, m2: Seq<char>, uri
 // the file Range::get_content_range_list reads for a target: served directory ++ path of the parsed target
 pub open spec fn target_file(uri: Seq<char>) -> Option<Seq<char>> {
     let p = url_path_spec(request_url(uri));
-    if p.is_some() && has_prefix(p.unwrap(), slash()) && !has_sub(p.unwrap(), dotdot()) { Some(cwd() + p.unwrap()) } else { None }
+    if p.is_some() && inside(p.unwrap()) { Some(cwd() + p.unwrap()) } else { None }
 }
 // the single part that answers a request without a Range header for the regular file f: all of its bytes, its media type
 pub open spec fn whole_file_part(f: Seq<char>, p: ContentRange) -> bool {
@@ -142,59 +139,28 @@ pub open spec fn serves_whole(uri: Seq<char>, parts: Seq<ContentRange>) -> bool 
     parts.len() == 1 && whole_file_part(selected(p), parts[0])
 }
 // domain of the C02 statement for a target: it parses, lies under the root, is selected by the lookup, the selected file is a regular
-// file; the path holds no '#' (a '#' before the first '?' stays in the path and is cut off when the path is re-parsed) and does not end
-// in '.' (path ++ ".html" would then hold "..", which the containment guard refuses)
+// file; the path holds no '#' (a '#' before the first '?' stays in the path and is cut off when the path is re-parsed)
 pub open spec fn c02_domain(uri: Seq<char>) -> bool {
     let po = url_path_spec(request_url(uri));
-    po.is_some() && has_prefix(po.unwrap(), slash()) && !has_sub(po.unwrap(), dotdot()) && plain_path(po.unwrap())
-        && po.unwrap().last() != '.'
+    po.is_some() && inside(po.unwrap()) && plain_path(po.unwrap())
         && lookup_selects(po.unwrap()) && regular(selected(po.unwrap()))
 }
 
-pub proof fn lemma_no_dotdot_append(p: Seq<char>, suf: Seq<char>)
-    requires !has_sub(p, dotdot()), !has_sub(suf, dotdot()), p.len() == 0 || suf.len() == 0 || p.last() != '.' || suf[0] != '.',
-    ensures !has_sub(p + suf, dotdot()),
-{
-    let q = p + suf;
-    if has_sub(q, dotdot()) {
-        let k = choose|k: int| 0 <= k && k + 2 <= q.len() && #[trigger] q.subrange(k, k + 2) == dotdot();
-        assert(q.subrange(k, k + 2)[0] == '.' && q.subrange(k, k + 2)[1] == '.');
-        assert(q[k] == '.' && q[k + 1] == '.');
-        if k + 2 <= p.len() {
-            assert(p.subrange(k, k + 2) =~= dotdot());
-        } else if k >= p.len() {
-            assert(suf.subrange(k - p.len(), k - p.len() + 2) =~= dotdot());
-        } else {
-            assert(q[k] == p.last() && q[k + 1] == suf[0]);
-        }
-    }
-}
 // the file read when the controller asks for  path ++ suffix  (index.html / .html): served directory ++ path ++ suffix
 pub proof fn lemma_target_of_suffix(p: Seq<char>, suf: Seq<char>)
-    requires has_prefix(p, slash()), !has_sub(p, dotdot()), plain_path(p), plain_path(suf), !has_sub(suf, dotdot()),
-        suf.len() == 0 || p.last() != '.' || suf[0] != '.',
+    requires inside(p), plain_path(p), plain_path(suf), harmless_suffix(suf),
     ensures target_file(p + suf) == Some(cwd() + p + suf),
 {
     let q = p + suf;
-    assert(p.subrange(0, 1) == slash());
-    assert(p[0] == p.subrange(0, 1)[0]);
-    assert(q[0] == '/');
+    lemma_inside(p);
+    assert(q[0] == p[0]);
     assert(plain_path(q)) by { assert forall|i: int| 0 <= i < q.len() implies #[trigger] q[i] != '?' && q[i] != '#' by { if i < p.len() { assert(q[i] == p[i]); } else { assert(q[i] == suf[i - p.len()]); } } }
     axiom_url_plain_path(q);
-    lemma_no_dotdot_append(p, suf);
-    assert(q.subrange(0, 1) =~= slash());
+    lemma_append_inside(p, suf);
+    lemma_inside(q);
     assert(cwd() + q =~= cwd() + p + suf);
 }
 pub proof fn lemma_suffix_facts()
-    ensures
-        plain_path(s_index_html()), plain_path(s_slash_index_html()), plain_path(s_dot_html()),
-        !has_sub(s_index_html(), dotdot()), !has_sub(s_slash_index_html(), dotdot()), !has_sub(s_dot_html(), dotdot()),
-        s_index_html()[0] != '.', s_slash_index_html()[0] != '.',
+    ensures plain_path(s_index_html()), plain_path(s_slash_index_html()), plain_path(s_dot_html()),
 {
-    assert forall|k: int| 0 <= k && k + 2 <= s_index_html().len() implies #[trigger] s_index_html().subrange(k, k + 2) != dotdot() by {
-        let t = s_index_html().subrange(k, k + 2); assert(t[0] == s_index_html()[k] && t[1] == s_index_html()[k + 1]); }
-    assert forall|k: int| 0 <= k && k + 2 <= s_slash_index_html().len() implies #[trigger] s_slash_index_html().subrange(k, k + 2) != dotdot() by {
-        let t = s_slash_index_html().subrange(k, k + 2); assert(t[0] == s_slash_index_html()[k] && t[1] == s_slash_index_html()[k + 1]); }
-    assert forall|k: int| 0 <= k && k + 2 <= s_dot_html().len() implies #[trigger] s_dot_html().subrange(k, k + 2) != dotdot() by {
-        let t = s_dot_html().subrange(k, k + 2); assert(t[0] == s_dot_html()[k] && t[1] == s_dot_html()[k + 1]); }
 }
